@@ -352,6 +352,7 @@ class EvaluatedOptimum(object):
         # (a) best is an evaluated point, with its true energy
         fin = finite(be) if not isinstance(be, tuple) else all(finite(v) for v in be)
         if fin and not isinstance(be, tuple):
+            h.run.probe('c01.best_checked')
             ks = self.index.get(tuple(bs))
             if not ks:
                 h.violate(self.P, 'best_not_evaluated', detail='%s: bestSolution %r (energy %r) was never passed '
@@ -371,6 +372,7 @@ class EvaluatedOptimum(object):
         # (b) member energies == objective at the member (only while the objective is unchanged)
         if members and self.ep.single_epoch():
             ep = self.ep.cur
+            h.run.probe('c01.members_checked', len(s['popEnergy']))
             for i, (x, e) in enumerate(zip(s['population'], s['popEnergy'])):
                 if solver == 'NM' and s['generations'] == 0 and i > 0:
                     continue     # the simplex is only populated by the first iteration
@@ -407,6 +409,7 @@ class BoxOracle(object):
         ev = h.run.evals
         box = self.ep.cur['box']
         if box is not None:
+            if len(ev) > self.checked: h.run.probe('c02.evals_checked_against_box', len(ev) - self.checked)
             for i in range(self.checked, len(ev)):
                 if not in_box(ev[i].x, box):
                     h.violate(self.P, 'cost_called_outside_box', detail='cost call #%d at %r is outside the strict '
@@ -437,6 +440,7 @@ class BoxOracle(object):
                               'raise ValueError (%r)' % (a.get('clip'), res), **self.tags(h))
             if h.started: self.box_changed = True
             elif 'exc' not in res: self.box_from_start = bool(a)
+            self.ep.note(h, op, res)            # the box in force from here on (no-op if the call raised)
             legal = not (a and a.get('tight') is False and a.get('clip') is not None)
             if 'exc' in res and legal:
                 lo, hi = (a or {}).get('lo', []), (a or {}).get('hi', [])
@@ -446,6 +450,8 @@ class BoxOracle(object):
                           exc=res['exc'])
                 # the call failed half way: which box is in force is undefined until the next successful call
                 self.ep.cur['box'] = None; self.box_from_start = False
+        if op['op'] == 'set' and op['what'] != 'bounds':
+            self.ep.note(h, op, res)
         if op['op'] == 'set' and op['what'] == 'init' and 'lo' in (op.get('arg') or {}) and 'exc' not in res:
             a = op['arg']
             for i, m in enumerate(h.snap()['population']):
@@ -477,6 +483,7 @@ class ConstraintOracle(object):
         ev = h.run.evals
         con = self.ep.cur['con']
         if con is not None:
+            if len(ev) > self.checked: h.run.probe('c03.evals_checked_against_constraint', len(ev) - self.checked)
             for i in range(self.checked, len(ev)):
                 x = ev[i].x
                 if tuple(env.con_apply(con, list(x))) != x and not any(v != v for v in x):
